@@ -231,7 +231,7 @@ func formats(r *rand.Rand) []spec {
 	}
 	nc := fmt.Sprint(1 + r.Intn(4))
 	return []spec{
-		base("top"), base("top", "nodecount="+nc), base("tree"), base("tree", "nodecount="+nc), base("peek", "peek=."), base("dot"), base("dot", "nodecount="+nc), base("dot", "call_tree"), base("dot", "call_tree", "nodecount="+nc),
+		base("top"), base("top", "nodecount="+nc), base("tree"), base("tree", "nodecount="+nc), base("peek", "peek=."), base("dot"), base("dot", "nodecount="+nc), base("dot", "call_tree"), base("dot", "call_tree", "nodecount=1"), base("dot", "call_tree", "nodecount=2"), base("dot", "call_tree", "nodecount=3"), base("dot", "call_tree", "nodecount=4"), base("dot", "call_tree", "nodecount=6"),
 		base("callgrind"), base("callgrind", "call_tree"), base("tags"), base("traces"), base("raw"), base("proto"), base("topproto"), base("text", "tagroot=k", "tagleaf=j"),
 	}
 }
@@ -406,11 +406,11 @@ func init() {
 	harness.Register(&harness.Check{
 		ID:    "C08",
 		Level: "exploration",
-		Rule: "part orderlaws: tie-rich element sets of 3..6 distinct elements (values in {0,+-1,+-2,+-5}, equal names at different addresses/files/binaries) - EVERY permutation (6..720) is sorted by SortTags (flat, cum) and Nodes.Sort (7 orders incl. entropy with random edges); EdgeMap.Sort is repeated 60x (its input order is a map); the result sequence must be unique (sort.Sort is an insertion sort at these sizes, so any pair the comparator leaves unordered yields two results). part e2e: tie-class profiles (values -2..2, +/- cancelling diff shapes, equal names in several files, duplicate label values) x 17 format/option combinations (top, tree, peek, dot, dot+call_tree, callgrind(+call_tree), tags, traces, raw, proto (gunzipped), topproto, tagroot/tagleaf; with and without nodecount) rendered 8x in one process (fresh map seeds each time) plus web /top /flamegraph /peek /source on two servers; all byte strings equal. part xproc (thorough): the same renderings in 3 fresh processes. non-trivial = every case; distinct = element set / profile shape",
+		Rule: "part orderlaws: tie-rich element sets of 3..6 distinct elements (values in {0,+-1,+-2,+-5}, equal names at different addresses/files/binaries) - EVERY permutation (6..720) is sorted by SortTags (flat, cum) and Nodes.Sort (7 orders incl. entropy with random edges); EdgeMap.Sort is repeated 60x (its input order is a map); the result sequence must be unique (sort.Sort is an insertion sort at these sizes, so any pair the comparator leaves unordered yields two results). part e2e: tie-class profiles (values -2..2, +/- cancelling diff shapes, equal names in several files, duplicate label values) x 21 format/option combinations (top, tree, peek, dot, dot+call_tree, callgrind(+call_tree), tags, traces, raw, proto (gunzipped), topproto, tagroot/tagleaf; with and without nodecount) rendered 8x in one process (fresh map seeds each time) plus web /top /flamegraph /peek /source on two servers; all byte strings equal. part xproc (thorough): the same renderings in 3 fresh processes. non-trivial = every case; distinct = element set / profile shape",
 		Assumptions: []string{"elements of one sort call have distinct identities (names of tags within a node, NodeInfo of nodes in a graph), as in pprof's own data structures", "schedule coverage = map-iteration seeds of repeated runs and fresh processes; fetch completion orders are covered by C16"},
 		Parts: []harness.Part{
 			{Name: "orderlaws", Quick: 3000, Thor: 100000, Run: runOrderLaws},
-			{Name: "e2e", Quick: 400, Thor: 15000, Run: runE2E},
+			{Name: "e2e", Quick: 1500, Thor: 30000, Run: runE2E},
 			{Name: "xproc", Quick: 16, Thor: 1500, Run: runXProc},
 		},
 		MinNonTrivial: func(string) int { return 300 },
